@@ -157,6 +157,12 @@ pub struct BitTree<const PROBS_ARRAY_LEN: usize> {
 }
 
 impl<const PROBS_ARRAY_LEN: usize> BitTree<PROBS_ARRAY_LEN> {
+    #[cfg(feature = "verif")]
+    #[allow(dead_code)]
+    pub(crate) fn verif_digest(&self, h: &mut u64) {
+        crate::verif::digest_u16s(h, &self.probs);
+    }
+
     pub fn new() -> Self {
         // The validity of PROBS_ARRAY_LEN is checked at compile-time with a macro
         // that confirms that the argument P passed is indeed 1 << N for
@@ -209,6 +215,16 @@ pub struct LenDecoder {
 }
 
 impl LenDecoder {
+    #[cfg(feature = "verif")]
+    #[allow(dead_code)]
+    pub(crate) fn verif_digest(&self, h: &mut u64) {
+        crate::verif::digest_u16s(h, &[self.choice, self.choice2]);
+        for t in self.low_coder.iter().chain(self.mid_coder.iter()) {
+            t.verif_digest(h);
+        }
+        self.high_coder.verif_digest(h);
+    }
+
     pub fn new() -> Self {
         LenDecoder {
             choice: 0x400,
